@@ -279,7 +279,12 @@ func genOidcJSON(r *Run, full bool, wild bool) J {
 		o["access_token"] = J{"header": pick(rng, []string{"x-access-token", "x-access-token", "x-access-token", "", "authorization"}), "preamble": ""}
 	}
 	if rng.Intn(3) == 0 {
-		lo := J{"path": "/logout", "redirect_uri": pick(rng, []string{"https://idp/logout", ""})}
+		// the logout path collides with one of the callback paths of the grammar every fifth time - in whichever fragment
+		// (default, override, plain filter) this object ends up, so that collisions across the merge occur as well
+		lo := J{"path": pick(rng, []string{"/logout", "/logout", "/logout", "/app/logout", pick(rng, []string{"/callback", "/cb", "/oauth/callback"})}), "redirect_uri": pick(rng, []string{"https://idp/logout", ""})}
+		if rng.Intn(6) == 0 {
+			delete(lo, "path") // an override may carry only part of the logout message (merged field by field)
+		}
 		if odd() {
 			lo["path"] = pick(rng, []string{"/", "", "/callback", "/cb", "/oauth/callback"})
 		}
@@ -435,6 +440,51 @@ func mutateJSON(r *Run, v any, depth int) any {
 	return v
 }
 
+// directedOverrideDocs: a complete, valid default configuration and ONE chain whose oidc_override carries a single
+// field (or a part of the logout message) - every field x every good and bad value. Whatever the override alone looks
+// like, the MERGED filter has to be judged: a value that is harmless in its own fragment can collide with a value of
+// the other fragment (callback path vs logout path), blank a required member, or remove the openid scope.
+func directedOverrideDocs() []any {
+	base := func() J {
+		return J{"authorization_uri": "https://idp/auth", "token_uri": "https://idp/token", "callback_uri": "https://app/oauth",
+			"jwks": "{\"keys\":[]}", "client_id": "client", "client_secret": "secret", "scopes": []string{"profile"},
+			"id_token": J{"header": "authorization", "preamble": "Bearer"},
+			"logout":   J{"path": "/session", "redirect_uri": "https://idp/logout"}}
+	}
+	overrides := []J{
+		{}, {"logout": J{"path": "/oauth"}}, {"logout": J{"path": "/oauth", "redirect_uri": "https://idp/x"}}, {"logout": J{"redirect_uri": "https://idp/x"}},
+		{"callback_uri": "https://app/session"}, {"callback_uri": "https://app/session", "logout": J{"redirect_uri": "https://idp/x"}},
+		{"callback_uri": "https://app/session?x=1"}, {"callback_uri": "https://other/session/"}, {"callback_uri": "https://app/"}, {"callback_uri": "https://app"},
+		{"callback_uri": "%gh"}, {"logout": J{"path": "/"}}, {"logout": J{"path": ""}}, {"logout": J{}}, {"client_id": "a:b"}, {"client_id": ""},
+		{"id_token": J{"header": ""}}, {"id_token": J{"preamble": "Token"}}, {"access_token": J{"header": ""}}, {"access_token": J{"header": "x-at"}},
+		{"scopes": []string{}}, {"scopes": []string{"email"}}, {"scopes": []string{"openid"}}, {"authorization_uri": ""}, {"authorization_uri": "://bad"},
+		{"token_uri": "%zz"}, {"configuration_uri": "https://idp/.well-known/openid-configuration"}, {"jwks": ""}, {"jwks_fetcher": J{"jwks_uri": ""}},
+		{"jwks_fetcher": J{"jwks_uri": "https://idp/jwks"}}, {"client_secret": ""}, {"client_secret_ref": J{"name": "s"}}, {"client_secret_ref": J{"name": ""}},
+		{"cookie_name_prefix": "a b"}, {"cookie_name_prefix": "ok"}, {"redis_session_store_config": J{"server_uri": ""}}, {"proxy_uri": "%zz"},
+	}
+	var docs []any
+	for _, variant := range []string{"default-has-logout", "default-without-logout", "logout-only-in-override"} {
+		for _, ov := range overrides {
+			d := base()
+			if variant != "default-has-logout" {
+				delete(d, "logout")
+			}
+			o := J{}
+			for k, v := range ov {
+				o[k] = v
+			}
+			if variant == "logout-only-in-override" {
+				if _, has := o["logout"]; !has {
+					o["logout"] = J{"path": "/oauth", "redirect_uri": "https://idp/logout"}
+				}
+			}
+			docs = append(docs, J{"listen_address": "0.0.0.0", "listen_port": 8080, "log_level": "debug", "default_oidc_config": d,
+				"chains": []J{{"name": "app", "filters": []J{{"oidc_override": o}}}}})
+		}
+	}
+	return docs
+}
+
 func runC17(r *Run) {
 	dir := filepath.Join(r.Out, "cfg")
 	must(os.MkdirAll(dir, 0o755))
@@ -448,10 +498,14 @@ func runC17(r *Run) {
 		}
 	}
 	r.Extra["fixtures"] = len(fixtures)
-	n := scale(r, 4000, 120000)
+	directed := directedOverrideDocs()
+	r.Extra["directed_override_documents"] = len(directed)
+	n := scale(r, 4000, 120000) + len(directed)
 	for i := 0; i < n && r.unknownViolations() == 0; i++ {
 		var doc any
-		if i%4 == 3 && len(fixtures) > 0 {
+		if i < len(directed) {
+			doc = directed[i]
+		} else if i%4 == 3 && len(fixtures) > 0 {
 			doc = mutateJSON(r, pick(r.Rng, fixtures), 0)
 		} else {
 			doc = genConfigJSON(r)
